@@ -12,6 +12,12 @@
 (*   property predicates (a false one is a violation of C16):              *)
 (*     FrameLens    header once and first, every prefix = length of its    *)
 (*                  block, every block decodes, nothing left over          *)
+(*     RefReadable  the reference decoder of the format accepted the       *)
+(*                  complete output and returned the payload; for snappy   *)
+(*                  (every compression level, framed and unframed) the     *)
+(*                  reference decoder is the driver's STRICT block decoder *)
+(*                  (snappy elements only, copy offsets 1..produced): its  *)
+(*                  verdict on every block the writer emitted is e.strict  *)
 (*     RoundTrip    all bytes accepted; reference decoder / library reader *)
 (*                  return exactly the payload; a complete stream ends     *)
 (*                  with EOF and never fails                               *)
@@ -64,6 +70,19 @@ W_RoundTrip(e) ==
   Complete(e) => /\ \A i \in DOMAIN e.ops : ~e.ops[i].err /\ (e.ops[i].op \in {"write", "readfrom"} => e.ops[i].ret = e.ops[i].n)
                  /\ e.total = Requested(e.ops)
                  /\ e.refok /\ e.eq /\ e.declen = e.total
+(* "the compressed stream is readable by the reference decoder of that format", for whatever level the codec  *)
+(* value has (e.level; "" is the default).  e.strict[i] is the strict snappy block decoder's verdict on the     *)
+(* i-th block of the output (framed: the block of the i-th xerial frame; unframed: the whole stream):           *)
+(* ok = every element is a snappy element (an S2 repeat, i.e. a copy with offset 0, is not), n = bytes          *)
+(* produced = the announced length.  The blocks together must be the accepted payload (e.eq compares the bytes).*)
+W_RefReadable(e) ==
+  Complete(e) =>
+     /\ e.refok /\ e.eq /\ e.declen = e.total
+     /\ e.codec = "snappy" =>
+          /\ e.refdec = "snappy-block-strict"
+          /\ Len(e.strict) = Len(e.frames)
+          /\ \A i \in DOMAIN e.strict : e.strict[i].ok /\ e.strict[i].n >= 0 /\ e.strict[i].n = e.frames[i][3]
+          /\ SumSeq([i \in DOMAIN e.strict |-> e.strict[i].n]) = e.total
 (* what a user of the writer can observe: the values returned, and -- once the stream is complete -- what a   *)
 (* decoder makes of the output.  The part of an abandoned (never closed) stream that happens to have reached  *)
 (* the sink already is not an observable: it depends on the cut into blocks.                                  *)
@@ -123,6 +142,7 @@ Classes(e) ==
        IN (IF hf /\ base[e.key] # obs THEN {"HistoryFree"} ELSE {})
           \cup (IF e.kind = "w"
                 THEN (IF W_FrameLens(e) THEN {} ELSE {"FrameLens"}) \cup (IF W_RoundTrip(e) THEN {} ELSE {"RoundTrip"})
+                     \cup (IF W_RefReadable(e) THEN {} ELSE {"RefReadable"})
                      \cup (IF e.codec = "snappy" /\ ~W_Model(e).ok THEN {"Model"} ELSE {})
                 ELSE (IF R_RoundTrip(e) THEN {} ELSE {"RoundTrip"})
                      \cup (IF e.codec = "snappy" /\ ~R_Model(e).ok THEN {"Model"} ELSE {}))
